@@ -1,13 +1,15 @@
 #!/bin/bash
 # usage: tools/seedcheck.sh <seed dir (containing SEED/patch.diff)> <CNN> [more CNN...]
-# applies the seeded change to /repo, runs the quick checks named, reverts. Prints VIOLATION lines / exit codes.
+# Applies the seeded change in a scratch worktree of /repo HEAD (so that /repo itself and runs using it are not
+# disturbed), runs the quick checks named with --repo, removes the worktree and its build directory.
 d=$1; shift
-git -C /repo apply --check "$d/SEED/patch.diff" || { echo "PATCH DOES NOT APPLY"; exit 2; }
-git -C /repo apply "$d/SEED/patch.diff"
-git -C /repo diff --stat | tail -1
+W=/tmp/sc-$(basename $d)-$$
+git -C /repo worktree add --detach $W HEAD >/dev/null 2>&1 || { echo "worktree failed"; exit 2; }
+git -C $W apply "$d/SEED/patch.diff" || { echo "PATCH DOES NOT APPLY"; git -C /repo worktree remove --force $W; exit 2; }
+git -C $W diff --stat | tail -1
+tag=alt-$(python3 -c "import hashlib,sys;print(hashlib.md5(sys.argv[1].encode()).hexdigest()[:8])" $W)
 for id in "$@"; do
-  python3 /verif/verif.py run $id 2>&1 | cut -c1-300 | head -6
+  python3 /verif/verif.py run $id --repo $W 2>&1 | cut -c1-300 | head -6
   echo "exit($id)=${PIPESTATUS[0]}"
 done
-git -C /repo checkout -- .
-git -C /repo status --short | head -3
+git -C /repo worktree remove --force $W; rm -rf /verif/build/$tag /verif/build/.lock-$tag-*
